@@ -19,7 +19,12 @@ import (
 	"time"
 )
 
-const Root = "/verif"
+var Root = func() string {
+	if r := os.Getenv("VERIF_ROOT"); r != "" {
+		return r
+	}
+	return "/verif"
+}()
 
 // Env describes one invocation of a check.
 type Env struct {
